@@ -660,7 +660,9 @@ section reentrant
 /-- **The loop acts, then advances in the list as the callback left it** (every state, both directions): before the
 `k`-th call values are delivered from the unchanged list; at the `k`-th call the callback's action is applied and the
 rest of the traversal is the plain walk of the *new* list from the *new* successor of the current element; in
-particular an element removed inside its own callback ends the traversal (its `Next()`/`Prev()` is nil afterwards). -/
+particular an element removed inside its own callback ends the traversal (its `Next()`/`Prev()` is nil afterwards); an
+action scheduled for a call beyond the end of the list never happens (the traversal is the plain walk, the list is
+unchanged). -/
 theorem C10_reentrant_traversal (fwd : Bool) (act : St → Nat → St) (f : Nat) (s : St) (e : Nat) (he : e ≠ 0) :
     (∀ k, walkMut fwd act (f + 1) (k + 2) s e =
       ((walkMut fwd act f (k + 1) s (if fwd then nextOf s e else prevOf s e)).1,
@@ -669,8 +671,11 @@ theorem C10_reentrant_traversal (fwd : Bool) (act : St → Nat → St) (f : Nat)
       (act s e, valueOf s e ::
         (if fwd then walkF (act s e) f (nextOf (act s e) e) else walkB (act s e) f (prevOf (act s e) e))) ∧
     (∀ l first last, owned s e l = true →
-      walkMut fwd (reAct l first last .rmCur) (f + 1) 1 s e = ((step s (.remove l e)).1, [valueOf s e])) := by
-  refine ⟨fun k => walkMut_before fwd act f k s e he, walkMut_acts fwd act f s e he, ?_⟩
+      walkMut fwd (reAct l first last .rmCur) (f + 1) 1 s e = ((step s (.remove l e)).1, [valueOf s e])) ∧
+    (∀ k, (if fwd then walkF s f e else walkB s f e).length < k →
+      walkMut fwd act f k s e = (s, if fwd then walkF s f e else walkB s f e)) := by
+  refine ⟨fun k => walkMut_before fwd act f k s e he, walkMut_acts fwd act f s e he, ?_,
+    fun k hk => walkMut_beyond fwd act f k s e hk⟩
   intro l first last ho
   rw [walkMut_acts fwd _ f s e he]
   have hn : nextOf (reAct l first last .rmCur s e) e = 0 := by
